@@ -7,7 +7,7 @@ import itertools
 from hypothesis import strategies as st
 
 from vf import drive, env, gen
-from vf.codec_ref import VERSIONS
+from vf.codec_ref import VERSIONS, plain_int
 from vf.runner import Outcome, fail
 
 ID = "C04"
@@ -146,7 +146,7 @@ def _nontrivial(case: dict) -> bool:
     interesting = False
     for op in case["ops"]:
         parts = op[1].rstrip("\n").split(";")
-        if len(parts) < 6 or not all(p.lstrip("-").isdigit() for p in parts[:5]):
+        if len(parts) < 6 or not all(plain_int(p) for p in parts[:5]):
             continue
         node, child, cmd = int(parts[0]), int(parts[1]), int(parts[2])
         nodes_touched.add(node)
